@@ -203,6 +203,22 @@ func genC06Around(r *RNG, e *Emitter, i int) {
 		}
 		p = append(p, clip.Point64{X: int64(math.Round(cx + rad*math.Cos(a))), Y: int64(math.Round(cy + rad*math.Sin(a)))})
 	}
+	// back-tracking: now and then the path steps back towards the previous vertex's direction before going on
+	// (a notch that does not reach the rectangle), so that consecutive outside regions are visited non-monotonically
+	if r.Bool() {
+		var p2 clip.Path64
+		for j := range p {
+			p2 = append(p2, p[j])
+			if j > 0 && r.Intn(3) == 0 {
+				a, b := p[j-1], p[j]
+				in1 := clip.Point64{X: int64(math.Round(cx + (float64(a.X)-cx)*0.93)), Y: int64(math.Round(cy + (float64(a.Y)-cy)*0.93))}
+				out1 := clip.Point64{X: int64(math.Round(cx + (float64(b.X)-cx)*1.12)), Y: int64(math.Round(cy + (float64(b.Y)-cy)*1.12))}
+				p2 = append(p2, in1, out1)
+			}
+		}
+		p = p2
+		nv = len(p)
+	}
 	k := r.Intn(nv)
 	p = append(append(clip.Path64{}, p[k:]...), p[:k]...)
 	if r.Bool() {
